@@ -212,6 +212,11 @@ def flag_scenarios(draw):
     for _ in range(src.int(0, 3)):
         k += 1
         reads.append(S.unmapped_read("r%d" % k))
+        if src.bool(0.4) and reads[:-1]:
+            # a "placed" unmapped record: flag 4 with the position of some mapped record (+- a few bases)
+            m = src.choice([r for r in reads if r.get("c") is not None] or [None])
+            if m is not None:
+                reads[-1]["placed"] = [m["c"], max(0, m["p"] + src.choice([0, 0, 1, -1, 50, 300]))]
     # read names with characters that the SAM specification allows and that mean something elsewhere (comment
     # sign, separators); a read keeps its name in all its records
     if src.bool(0.25):
